@@ -56,6 +56,10 @@ def strategy(draw, tier="quick"):
         a[3] = "1/8" if a[1] == "" else draw(st.sampled_from(pool))
     for s in m["start"] + m["stop"]:
         s[1] = draw(st.sampled_from(pool + ["2"]))
+    if len(m["states"]) >= 2 and draw(st.integers(0, 7)) == 0:
+        # a symbol that labels exactly one self-loop on every state (a diagonal transition matrix)
+        m["arcs"] = [a for a in m["arcs"] if a[1] != "a"] + [[q, "a", q, draw(st.sampled_from(pool))] for q in m["states"]]
+        m["diagonal_symbol"] = True
     if draw(st.integers(0, 3)) == 0:
         # signed weights (the statement says real-weighted): flip the sign of some non-epsilon weights
         for a in m["arcs"]:
@@ -330,7 +334,7 @@ def check(case, ctx):
     Fm = model("FLOAT")
     cA = float_case(case["m"])
     A = RA.from_case(Q, cA)
-    ctx.cls("kind:" + case["kind"], "signed_weights" if case["m"].get("signed") else None, *gen.classify_automaton(case["m"]))
+    ctx.cls("kind:" + case["kind"], "signed_weights" if case["m"].get("signed") else None, "diagonal_symbol" if case["m"].get("diagonal_symbol") else None, *gen.classify_automaton(case["m"]))
     cB = transform(case["m"], case["kind"], case["k"], case["d"])
 
     mA = ctx.call("build", lib_wfsa, Fm, case["m"], "field")
